@@ -118,7 +118,8 @@ def _pkgspec():
     })
 
 
-def scenario_strategy(repo, op):
+def scenario_strategy(repo, op, relation=None):
+    """`relation` pins same-fullver / other-version for vdb replace (the plan alternates it so that a quick run has both)"""
     d = {
         "repo": st.just(repo),
         "op": st.just(op),
@@ -129,7 +130,8 @@ def scenario_strategy(repo, op):
         "sibling": st.booleans(),
         "other_slot": st.booleans(),
         "needed": st.booleans() if repo == "vdb" else st.just(False),
-        "relation": st.sampled_from(["same", "other"]) if (repo == "vdb" and op == "replace") else st.just("same"),
+        "relation": (st.just(relation) if relation else st.sampled_from(["same", "other"])) if (repo == "vdb" and op == "replace")
+        else st.just("same"),
         "driver": st.sampled_from(["staged", "install_or_replace"]) if op != "uninstall" else st.just("staged"),
     }
     return st.fixed_dictionaries(d)
@@ -765,7 +767,8 @@ def run_task(ctx, task, repo, op, n, part):
     limit = None
     if ctx.tier == "quick" and repo == "vdb":
         limit = 60
-    core.hyp_run(ctx, scenario_strategy(repo, op), lambda sc: run_scenario(ctx, sc, limit, pick), n, chunk=n,
+    relation = ("same", "other")[part % 2] if (repo, op) == ("vdb", "replace") else None
+    core.hyp_run(ctx, scenario_strategy(repo, op, relation), lambda sc: run_scenario(ctx, sc, limit, pick), n, chunk=n,
                  seed_salt=part * 17 + COMBOS.index((repo, op)))
 
 
